@@ -98,6 +98,81 @@ theorem crash_at_any_byte {α : Type} (env : Env α) (evs : List Event) (fl : Li
   by_cases hq : q = [] <;> simp [hq]
 
 -- ------------------------------------------------------------------------------------------------
+-- the writer's buffering and flush points inside the model
+-- ------------------------------------------------------------------------------------------------
+/-- reading any prefix of a prefix of the record file: the core used below -/
+private theorem read_disk_cut {α : Type} (env : Env α) (vs : List Value) (fl : List α)
+    (hgood : Good env 0 vs fl) (d : Bytes) (hd : d <+: encList vs) (n : Nat) :
+    ∃ k, readAll env (d.take n) = (fl.take k, .clean) ∨ readAll env (d.take n) = (fl.take k, .flowRead) := by
+  have hp : d.take n <+: encList vs := List.IsPrefix.trans (List.take_prefix n d) hd
+  obtain ⟨k, q, _, _, _, hr⟩ := prefix_yields_complete_records_only env vs fl hgood _ hp
+  refine ⟨k, ?_⟩
+  rw [hr]
+  by_cases hq : q = [] <;> simp [hq]
+
+/-- **C37 (crash consistency under ANY buffering).** Let a program write the records of `vs` through a buffered file by
+    ANY sequence of `write`/`flush` operations (the writes' payloads concatenate to the record file; how much the
+    buffering layer hands to the OS after each write is arbitrary). Stop it after ANY number `i` of operations and let
+    only the first `n` bytes of what the OS was handed survive: loading yields an initial segment of the written
+    flows and ends cleanly or with FlowReadException. -/
+theorem crash_consistent_any_buffering {α : Type} (env : Env α) (vs : List Value) (fl : List α)
+    (hgood : Good env 0 vs fl) (ops : List FOp) (hlog : opsLog ops = encList vs) (i n : Nat) :
+    ∃ k, readAll env ((BFile.empty.runOps (ops.take i)).disk.take n) = (fl.take k, .clean) ∨
+         readAll env ((BFile.empty.runOps (ops.take i)).disk.take n) = (fl.take k, .flowRead) :=
+  read_disk_cut env vs fl hgood _ (hlog ▸ disk_prefix ops i) n
+
+/-- **C37 (every hook sequence, every crash point).** For EVERY sequence of save hooks, EVERY spill behaviour of the
+    buffering layer, EVERY number `i` of completed file operations and EVERY surviving byte count `n`: what is on
+    disk loads as an initial segment of the flows the hooks wrote, then a clean end or FlowReadException. -/
+theorem crash_prefix_every_hook_sequence {α : Type} (env : Env α) (evs : List Event) (fl : List α)
+    (hgood : Good env 0 (written evs) fl) (ks : List Nat) (i n : Nat) :
+    ∃ k, readAll env ((BFile.empty.runOps ((hookOps evs ks).take i)).disk.take n) = (fl.take k, .clean) ∨
+         readAll env ((BFile.empty.runOps ((hookOps evs ks).take i)).disk.take n) = (fl.take k, .flowRead) :=
+  crash_consistent_any_buffering env (written evs) fl hgood (hookOps evs ks) (opsLog_streamOps _ _) i n
+
+/-- **C37 (complete at every hook boundary — because of the flush).** After the file operations of any number of
+    complete hooks, the OS has been handed exactly the concatenation of all records written so far and the process'
+    buffer is empty — whatever the buffering layer did in between. -/
+theorem hook_boundary_flushed (evs : List Event) (ks : List Nat) :
+    BFile.empty.runOps (hookOps evs ks) = ⟨run evs, []⟩ := by
+  rw [hookOps, streamOps_flushed _ _ _ rfl, file_is_concatenation]
+  simp [BFile.empty]
+
+/-- … hence the file on disk after every hook reads back, cleanly, as all flows written so far — with the buffering
+    inside the model instead of assumed away -/
+theorem stream_disk_complete_after_each_hook {α : Type} (env : Env α) (evs : List Event) (j : Nat) (fl : List α)
+    (ks : List Nat) (hgood : Good env 0 (written (evs.take j)) fl) :
+    readAll env (BFile.empty.runOps (hookOps (evs.take j) ks)).disk = (fl, .clean) := by
+  rw [hook_boundary_flushed]
+  exact stream_file_complete_after_each_hook env evs j fl hgood
+
+/-- **C37 (explicit save).** `save.file` writes through `FlowWriter` without flushing; a crash at any operation and
+    byte still leaves an initial segment of the flows, and after the `with` block closes the file it is complete. -/
+theorem explicit_save_crash_consistent {α : Type} (env : Env α) (vs : List Value) (fl : List α)
+    (hgood : Good env 0 vs fl) (ks : List Nat) (i n : Nat) :
+    ∃ k, readAll env ((BFile.empty.runOps ((explicitOps vs ks).take i)).disk.take n) = (fl.take k, .clean) ∨
+         readAll env ((BFile.empty.runOps ((explicitOps vs ks).take i)).disk.take n) = (fl.take k, .flowRead) :=
+  crash_consistent_any_buffering env vs fl hgood (explicitOps vs ks) (opsLog_explicitOps _ _) i n
+
+theorem explicit_save_complete_after_close (vs : List Value) (ks : List Nat) :
+    BFile.empty.runOps (explicitOps vs ks) = ⟨encList vs, []⟩ := by
+  rw [explicitOps_closed]; simp [BFile.empty]
+
+/-- **C37 (CPython's buffering policy).** With `BufferedWriter.write` transcribed (buffer size `B`): after every
+    `FlowWriter.add` of an explicit save the bytes the OS holds, cut anywhere, load as an initial segment of the flows. -/
+theorem cpython_buffered_explicit_save {α : Type} (env : Env α) (vs : List Value) (fl : List α)
+    (hgood : Good env 0 vs fl) (B : Nat) (st : BFile) (hst : st ∈ pyExplicit B BFile.empty (vs.map dumps)) (n : Nat) :
+    ∃ k, readAll env (st.disk.take n) = (fl.take k, .clean) ∨ readAll env (st.disk.take n) = (fl.take k, .flowRead) := by
+  obtain ⟨j, hj⟩ := pyExplicit_inv B _ _ _ hst
+  have hall : encList vs = ((vs.map dumps).take j).flatten ++ ((vs.map dumps).drop j).flatten := by
+    rw [← List.flatten_append, List.take_append_drop, MitmVerif.Props.C36.encList_eq_dumps]
+  have hd : st.disk <+: encList vs := by
+    refine ⟨st.buf ++ ((vs.map dumps).drop j).flatten, ?_⟩
+    rw [← List.append_assoc, hj, hall]
+    simp [BFile.empty]
+  exact read_disk_cut env vs fl hgood _ hd n
+
+-- ------------------------------------------------------------------------------------------------
 -- non-vacuity: a concrete two-record file, an environment for which `Good` holds, and what cuts of it read as
 -- ------------------------------------------------------------------------------------------------
 private def st1 : Value := .dict [(.str [0x61], .int 1)]        -- {"a": 1}   ->  8:1:a;1:1#}
@@ -121,5 +196,14 @@ example : readAll env0 ((run [.save st1, .save st2]).take 5) = ([], .flowRead) :
 example : readAll env0 ((run [.save st1, .save st2]).take 11) = ([0], .clean) := by decide +kernel
 example : readAll env0 ((run [.save st1, .save st2]).take 13) = ([0], .flowRead) := by decide +kernel
 example : readAll env0 ((run [.save st1, .save st2]).take 14) = ([0, 1], .clean) := by decide +kernel
+
+-- the flush is what makes the stream file complete at every moment: a writer that does not flush may have handed
+-- NOTHING to the OS after a finished flow (spill 0) …
+example : (BFile.empty.apply (.write (dumps st1) 0)).disk = [] := by decide +kernel
+-- … which is exactly what CPython's buffer does for a record smaller than the buffer
+example : (pyWrite 4096 BFile.empty (dumps st1)).disk = [] ∧ (pyWrite 4 BFile.empty (dumps st1)).disk = dumps st1 := by
+  decide +kernel
+example : (BFile.empty.runOps (hookOps [.save st1, .noop, .save st2] [0, 3])).disk
+    = [0x38,0x3a,0x31,0x3a,0x61,0x3b,0x31,0x3a,0x31,0x23,0x7d, 0x30,0x3a,0x7d] := by decide +kernel
 
 end MitmVerif.Props.C37
